@@ -14,6 +14,9 @@
 //!     packed structs, `PodOption` layout and tags, enum encodings); the model answers from the generated table.
 //!   * `mint|token <owner> <image>`  puts the image into a native `AccountInfo`, runs the framework's
 //!     view (`validate_accounts` + `data()`), answers accept/reject + fields; oracle = `Pack::unpack`.
+//!   * `view <mint|token> <unchecked|data|validate|set|vset|vdirect|init> <w?s?> <owner> <image> [args]`  every access
+//!     path of the zero-copy views behind an info with the given runtime writable/signer flags (`mint`/`token`/
+//!     `vmint`/`vtoken` are the `set`/`vset` paths behind a read-only non-signer info).
 //!   * `vmint|vtoken <owner> <image> <args>`  runs the `validate_mint` / `validate_token` validation ids
 //!     (`validate()?; validate_mint(arg)`), answers `ok` / `err:<class>`; oracle = the same predicate on the
 //!     fields the reference unpacker reports.
@@ -48,6 +51,7 @@ pub fn exec_line(line: &str) -> Exec {
         ["ix", rest @ ..] => ixs::exec_ix(rest),
         ["cpi", rest @ ..] => ixs::exec_cpi(rest),
         ["table", rest @ ..] => tables::exec_table(rest),
+        ["view", rest @ ..] => views::exec_view(rest),
         ["mint", owner, image] => views::exec_mint(owner, image),
         ["token", owner, image] => views::exec_token(owner, image),
         ["vmint", owner, image, d, au, fr] => views::exec_vmint(owner, image, d, au, fr),
